@@ -19,11 +19,11 @@ CONVERT = [
     ('Rpki/Model/CertDer.lean', 'CertDer', ['foldCons', 'foldPrim', 'takeOid', 'takeOptNull', 'takeBitString', 'nameAttr', 'nameRdn', 'takeName',
         'lastPrintable', 'lastRouterString', 'inspectAttr', 'inspectName', 'inspectRpkiName', 'inspectRouterName', 'takeSigAlg',
         'takeValidityCivil', 'takeValidity', 'takePublicKey', 'extension', 'decodeTbs', 'certBody', 'takeCert', 'decodeCert', 'toFacts']),
-    ('Rpki/Model/CmsDer.lean', 'CmsDer', ['takeDigestAlg', 'takeCmsSigAlg', 'skipU8', 'signerInfo', 'signedData', 'decodeSigObj', 'decodeTyped']),
+    ('Rpki/Model/CmsDer.lean', 'CmsDer', ['takeDigestAlg', 'takeCmsSigAlg', 'skipU8', 'signerInfo', 'signedData', 'decodeSigObj', 'decodeTyped', 'toObj']),
     ('Rpki/Model/CrlDer.lean', 'CrlDer', ['crlExtension']),
     ('Rpki/Model/SigMsgDer.lean', 'SigMsgDer', ['idExtension', 'idExtsOf', 'decodeTbsId', 'idCertBody', 'decodeIdCert', 'msgCrlExtension', 'takeOptMsgEntry',
         'takeMsgRevoked', 'msgRevokedSerials', 'decodeTbsMsgCrl', 'msgCrlBody', 'msgSignerInfo', 'msgEncap', 'msgCertPart', 'msgCrlPart',
-        'msgSignerPart', 'msgHead', 'msgSignedData', 'decodeSigMsg']),
+        'msgSignerPart', 'msgHead', 'msgSignedData', 'decodeSigMsg', 'toMsg']),
 ]
 NAMESPACES = ['Der', 'CertDer', 'Manifest', 'SigObj', 'CmsDer', 'CrlDer', 'SigMsgDer', 'Crl', 'AsDer']
 names = [n for _, n in HAND] + [n for _, _, ns in CONVERT for n in ns]
@@ -311,7 +311,7 @@ emit_lemmas(LEMMAS2, ['import Rpki.Proofs.BerSub', 'import Rpki.Proofs.CertDerLe
 # ---- "the relaxed decoders only admit more" (Gen/BerMonoGen.lean): for every definition with an Option result,
 # (foo args).isSome -> fooM true args = foo args, proved by splitting the DER side and rewriting the BER side with the
 # equalities already shown; loops and the hand-written BER definitions have hand proofs in the dictionary below
-MONO_SKIP = {'lastPrintable', 'lastRouterString', 'inspectAttr', 'inspectName', 'inspectRpkiName', 'inspectRouterName', 'toFacts',
+MONO_SKIP = {'toMsg', 'toObj', 'lastPrintable', 'lastRouterString', 'inspectAttr', 'inspectName', 'inspectRpkiName', 'inspectRouterName', 'toFacts',
              'foldCons', 'foldPrim'}
 MONO_LEAF = ['Rpki.readTlv_monoEq', 'Rpki.takeOptCons_monoEq', 'Rpki.takeOptPrim_monoEq', 'Rpki.takePrim_monoEq', 'Rpki.takeCons_monoEq',
              'Rpki.takeOptConsIM_monoEq', 'Rpki.takeOptBool_monoEq', 'Rpki.skipOne_monoEq', 'Rpki.skipAll_monoEq', 'Rpki.bitStringTake_monoEq']
